@@ -1,6 +1,7 @@
 (* Properties/C04.v — RunOnLoop: accepted functions run exactly once, in order, and are never left waiting. *)
 From GN Require Import Common.Base Common.Int64 Model.Loop Model.LoopSrc Model.LoopTime Gen.LoopSkeleton
   Proofs.LoopFrame Proofs.LoopCtl Proofs.LoopTimers Proofs.LoopInv Proofs.LoopProps Proofs.LoopTime Cases.LoopCheck Proofs.LoopReplay Proofs.LoopProgress.
+From GN Require Proofs.AuxBuffers.
 Open Scope Z_scope.
 
 (* in every reachable state, what has run, then what the current drain still holds, then the queue, is exactly the
@@ -67,6 +68,45 @@ Print Assumptions C04_blocked_is_woken.
 Theorem C04_measure_well_founded : well_founded lt3.
 Proof. exact lt3_wf. Qed.
 Print Assumptions C04_measure_well_founded.
+
+(* the queue as the two Go slices it is (backing arrays, lengths, capacities; append in place or with a fresh array of any
+   capacity the runtime chooses): the code as written refines the two lists `aux` and `batch` of the model. In every state
+   reachable by any interleaving of submissions with the steps of runAux the invariant holds - in particular the batch being
+   executed and the queue never share a backing array - and: a submission appends to the queue and leaves the batch alone;
+   the swap makes the queue the batch and empties the queue; the entry read for a call is never nil; clearing the slot removes
+   the head of the batch and leaves the queue alone; at the end the emptied batch becomes the spare *)
+Theorem C04_buffers_invariant_reachable : forall ops s', AuxBuffers.bruns AuxBuffers.binit ops = Some s' -> AuxBuffers.BInv s'.
+Proof. intros ops s' H. exact (AuxBuffers.reachable_binv ops AuxBuffers.binit s' AuxBuffers.binit_inv H). Qed.
+Print Assumptions C04_buffers_invariant_reachable.
+
+Theorem C04_buffers_submit : forall s f c, AuxBuffers.BInv s ->
+  let s' := AuxBuffers.do_append s f c in
+  AuxBuffers.BInv s' /\ AuxBuffers.queue_of s' = AuxBuffers.queue_of s ++ [Some f] /\ AuxBuffers.batch_of s' = AuxBuffers.batch_of s.
+Proof. exact AuxBuffers.submit_refines. Qed.
+Print Assumptions C04_buffers_submit.
+
+Theorem C04_buffers_swap : forall s, AuxBuffers.BInv s -> AuxBuffers.running s = None ->
+  exists s', AuxBuffers.bstep s AuxBuffers.BSwap = Some (s', None) /\ AuxBuffers.BInv s' /\
+             AuxBuffers.batch_of s' = AuxBuffers.queue_of s /\ AuxBuffers.queue_of s' = [].
+Proof. exact AuxBuffers.swap_refines. Qed.
+Print Assumptions C04_buffers_swap.
+
+Theorem C04_buffers_call_never_nil : forall s x rest, AuxBuffers.BInv s -> AuxBuffers.batch_of s = x :: rest ->
+  AuxBuffers.bstep s AuxBuffers.BCall = Some (s, Some x) /\ x <> None.
+Proof. exact AuxBuffers.call_refines. Qed.
+Print Assumptions C04_buffers_call_never_nil.
+
+Theorem C04_buffers_clear : forall s x rest, AuxBuffers.BInv s -> AuxBuffers.batch_of s = x :: rest ->
+  exists s', AuxBuffers.bstep s AuxBuffers.BClear = Some (s', None) /\ AuxBuffers.BInv s' /\
+             AuxBuffers.batch_of s' = rest /\ AuxBuffers.queue_of s' = AuxBuffers.queue_of s.
+Proof. exact AuxBuffers.clear_refines. Qed.
+Print Assumptions C04_buffers_clear.
+
+Theorem C04_buffers_done : forall s jobs i, AuxBuffers.BInv s -> AuxBuffers.running s = Some (jobs, i) -> AuxBuffers.batch_of s = [] ->
+  exists s', AuxBuffers.bstep s AuxBuffers.BDone = Some (s', None) /\ AuxBuffers.BInv s' /\ AuxBuffers.running s' = None /\
+             AuxBuffers.queue_of s' = AuxBuffers.queue_of s /\ AuxBuffers.batch_of s' = [].
+Proof. exact AuxBuffers.done_refines. Qed.
+Print Assumptions C04_buffers_done.
 
 Theorem C04_terminate_runs_all_accepted : forall k s, reach k s -> (tph s = TCan \/ tph s = TDrain) -> executed s = accepted s /\ aux s = [].
 Proof. exact terminate_runs_all_accepted. Qed.
